@@ -1320,7 +1320,7 @@ def render_ext_utils(repo):
             continue
         if len(pat) == 1 and (is_i(pat[0]) or is_p(pat[0], "_")):
             # c => f.write_char(c)
-            name = var if is_p(pat[0], "_") else pat[0].text
+            name = var if pat[0].text == "_" else pat[0].text
             b2 = strip_try(unblock(su, body))
             if b2 and is_p(b2[-1], ";"):
                 b2 = strip_try(b2[:-1])
